@@ -198,7 +198,7 @@ func zzOp(tx *Tx, mask int) error {
 func zzCheckAll(db *DB, path string, c zzCfg, id string) { zzCheckAllT(db, path, c, id, false, "") }
 
 func zzCheckAllT(db *DB, path string, c zzCfg, id string, trigger bool, key string) {
-	img := zz.FileBytes(path)
+	img := zz.FileView(path)
 	im := zzDecode(img, c.pageSize)
 	var extra []uint64
 	if c.noFLSync {
